@@ -203,7 +203,12 @@ impl PageTree {
         }
         let mut pos = 0;
         for &kid in &self.kids {
-            let node = resolve.get(kid)?;
+            let node = match resolve.get(kid) {
+                Ok(node) => node,
+                // a kid that refers to an object that does not exist is treated as absent
+                Err(e) if e.is_missing_object() => continue,
+                Err(e) => return Err(e)
+            };
             match *node {
                 PagesNode::Tree(ref tree) => {
                     if (pos .. pos + tree.count).contains(&page_nr) {
